@@ -13,7 +13,7 @@ import Banyan.Model.C04Seg
 namespace Banyan.C04Seg
 open Banyan.FS
 
-/-- **With the metadata written through `WriteAtomic`** (repair F72): three segments, every cut point, every
+/-- **With the metadata written through `WriteAtomic`** (repair F04s): three segments, every cut point, every
     crash outcome of either crash relation — start-up recovers. -/
 theorem seg_crash_recovers_atomic :
     (List.range ((history true 3).length + 1)).all (fun cut => (crashTrees true 3 cut).all recoversOK) = true := by
